@@ -97,6 +97,9 @@ def gen_cases(rng, tier, count=None):
             Y["box"] = [list(iv) for iv in X["box"]]
             c = dict(X)
             c.update(kind="sandwich", Y=Y, _cost=2 * X["_cost"] + Y["_cost"])
+            if rng.random() < 0.4:
+                c["fresh"] = True  # also compare with X run in a fresh interpreter (no process history at all)
+                c["_cost"] += 1.0
         elif k < 6:
             c = TW.safe_case(rng, algo, tier, n_choices=[100, 128])
             c["kind"] = "hashseed"
@@ -220,7 +223,30 @@ def run_sandwich(case, viol, obs):
     if d or r2["crash"] or r1["last"] != r2["last"]:
         V(viol, "C14:run_differs_after_another_instance_of_the_class_was_used", round=d[0] if d else None,
           before=d[1] if d else r1["last"], after=d[2] if d else (r2["crash"] or r2["last"]), other_part=Y["part"])
+    elif case.get("fresh"):
+        # r1 itself ran in a worker that has a history of other cases: the ground truth is a fresh interpreter
+        dg = fresh_digest(X, "0")
+        if dg is None:
+            return "watchdog"
+        obs["fresh_process_runs"] += 1
+        if dg != TW.digest(r2["points"], r2["last"]):
+            V(viol, "C14:run_in_a_process_with_history_differs_from_a_fresh_process", other_part=Y["part"],
+              other_params=Y.get("params"))
     return None
+
+
+def fresh_digest(case, hashseed):
+    env = dict(os.environ)
+    env["PYTHONPATH"] = C.REPO + os.pathsep + C.VERIF
+    env["PYTHONHASHSEED"] = hashseed
+    js = json.dumps({k: v for k, v in case.items() if not k.startswith("_")})
+    try:
+        p = subprocess.run([sys.executable, "-B", "-W", "ignore", "-m", "pyxabmon.twin"], input=js, text=True,
+                           capture_output=True, env=env, cwd=C.VERIF, timeout=300)
+    except subprocess.TimeoutExpired:
+        return None
+    line = [l for l in p.stdout.splitlines() if l.startswith("DIGEST")]
+    return line[0].split()[1] if line else None
 
 
 def run_interleave(case, viol, obs):
